@@ -506,10 +506,53 @@ func truncatedRecordTables() [][]byte {
 	for _, tc := range []struct {
 		typ byte
 		p   []byte
-	}{{'r', r}, {'g', g}, {'o', o}, {'i', x}} {
+	}{{'r', r}, {'g', g}} {
 		for cut := 1; cut <= len(tc.p); cut++ {
 			out = append(out, craft(tc.typ, tc.p[:cut], []int{28}, 0, 4))
 		}
 	}
+	// obj and index blocks are reached through the footer: a valid ref block first, the damaged block behind it
+	for _, tc := range []struct {
+		typ byte
+		p   []byte
+	}{{'o', o}, {'i', x}} {
+		for cut := 1; cut <= len(tc.p); cut++ {
+			out = append(out, craftSecond(tc.typ, r, tc.p[:cut]))
+		}
+	}
 	return out
+}
+
+// header | a well-formed ref block holding [refPayload] | a block of type typ holding [payload] | footer
+// naming the second block as object section (typ 'o', 4-byte ids) or as ref index (typ 'i')
+func craftSecond(typ byte, refPayload, payload []byte) []byte {
+	hdr, _ := hex.DecodeString("524546540100000000000000000000000000000000000000")
+	mk := func(t byte, pl []byte, hdrOff int) []byte {
+		blk := []byte{t, 0, 0, 0}
+		blk = append(blk, pl...)
+		r := hdrOff + 4
+		blk = append(blk, byte(r>>16), byte(r>>8), byte(r), 0, 1)
+		sz := hdrOff + len(blk)
+		blk[1], blk[2], blk[3] = byte(sz>>16), byte(sz>>8), byte(sz)
+		return blk
+	}
+	b1 := mk('r', refPayload, 24)
+	off2 := uint64(24 + len(b1))
+	b2 := mk(typ, payload, 0)
+	body := append(append(append([]byte{}, hdr...), b1...), b2...)
+	foot := append([]byte{}, hdr...)
+	var offs [5]uint64
+	if typ == 'o' {
+		offs[1] = off2<<5 | 4
+	} else {
+		offs[0] = off2
+	}
+	for _, v := range offs {
+		var x [8]byte
+		binary.BigEndian.PutUint64(x[:], v)
+		foot = append(foot, x[:]...)
+	}
+	var cs [4]byte
+	binary.BigEndian.PutUint32(cs[:], crc32.ChecksumIEEE(foot))
+	return append(body, append(foot, cs[:]...)...)
 }
